@@ -90,6 +90,7 @@ def run(ctx):
                     lines.append(f"iface c trans {media_args(m)} {f2b(a)} {f2b(0.0)} {kind} {mi} {mo} {1 if disp else 0}")
                     meta.append(("trans", (kind, mi, mo, disp), m, a, True, [complex(v)]))
                     check_helper(ctx, "trans", kind, mi, mo, disp, m, a, complex(v), model)
+                    check_helper_dtypes(ctx, "trans", model.transmission_at_interface, arim.InterfaceKind[kind], mat_inc, mat_out, arim.Mode[mi], arim.Mode[mo], kind, mi, mo, disp, m, a, complex(v), model)
         for kind, mi, mo in (("solid_fluid", "L", "L"), ("solid_fluid", "L", "T"), ("solid_fluid", "T", "L"), ("solid_fluid", "T", "T"), ("fluid_solid", "L", "L")):
             c_inc = m["cF"] if kind == "fluid_solid" else (m["cL"] if mi == "L" else m["cT"])
             mat_inc, mat_ag = (fluid, solid) if kind == "fluid_solid" else (solid, fluid)
@@ -101,6 +102,7 @@ def run(ctx):
                     lines.append(f"iface c refl {media_args(m)} {f2b(a)} {f2b(0.0)} {kind} {mi} {mo} {1 if disp else 0}")
                     meta.append(("refl", (kind, mi, mo, disp), m, a, True, [complex(v)]))
                     check_helper(ctx, "refl", kind, mi, mo, disp, m, a, complex(v), model)
+                    check_helper_dtypes(ctx, "refl", model.reflection_at_interface, arim.InterfaceKind[kind], mat_inc, mat_ag, arim.Mode[mi], arim.Mode[mo], kind, mi, mo, disp, m, a, complex(v), model)
     answers = ctx.drive(lines) if ctx.lean.driver_ok and not ctx.oracle_only else [None] * len(lines)
     for (what, fn, m, a, cplx, vals), l, ans in zip(meta, lines, answers):
         first_crit = min([np.arcsin(min(1.0, (m["cF"] if (fn == "fs" or (what != "coef" and fn[0] == "fluid_solid")) else m["cT"]) / c)) for c in (m["cL"],)] + [10])
@@ -212,6 +214,32 @@ def check_helper(ctx, what, kind, mi, mo, disp, m, a, v, model):
     if not rel_close(v, want, 1e-12):
         ctx.violate(f"{what}_at_interface({kind},{mi},{mo},{'displacement' if disp else 'stress'}) = {v!r}, expected {want!r}",
                     {"op": what, "kind": kind, "modes": [mi, mo], "disp": disp, "media": m, "angle": a}, {"kind": "helper"})
+
+
+def check_helper_dtypes(ctx, what, helper, ikind, mat1, mat2, mode_in, mode_out, kind, mi, mo, disp, m, a, v_default, model):
+    """the same coefficient whatever the dtype / container of the angles and the force_complex flag (real angles without
+    force_complex: only where the real-valued coefficient exists, i.e. below the critical angles)"""
+    unit = "displacement" if disp else "stress"
+    cj = {"op": what, "kind": kind, "modes": [mi, mo], "disp": disp, "media": m, "angle": a}
+    variants = [("complex scalar, force_complex=False", np.asarray(complex(a)), False),
+                ("complex scalar, force_complex=True", np.asarray(complex(a)), True),
+                ("complex 2x2 array, force_complex=False", np.full((2, 2), complex(a)), False),
+                ("real 1d array, force_complex=True", np.full((3,), a), True),
+                ("python float, force_complex=True", a, True)]
+    for label, ang, fc in variants:
+        ctx.count("helper_variant:" + label)
+        with np.errstate(all="ignore"):
+            v = np.asarray(helper(ikind, mat1, mat2, mode_in, mode_out, ang, unit=unit, force_complex=fc))
+        if v.shape != np.shape(ang) or not all(rel_close(complex(x), v_default, 1e-12) for x in v.ravel()):
+            ctx.violate(f"{what}_at_interface({kind},{mi},{mo},{unit}) with {label}: {v.ravel()[:2]!r} (shape {v.shape}), expected {v_default!r} (shape {np.shape(ang)})",
+                        {**cj, "variant": label}, {"kind": "helper_dtype"})
+            return
+    # real dtype kept real: equal to the complex coefficient wherever that one is real (all refracted angles real)
+    with np.errstate(all="ignore"):
+        v = np.asarray(helper(ikind, mat1, mat2, mode_in, mode_out, np.asarray(a), unit=unit, force_complex=False))
+    ctx.count("helper_variant:real scalar, force_complex=False")
+    if np.isfinite(v).all() and not rel_close(complex(v), v_default, 1e-9):
+        ctx.violate(f"{what}_at_interface({kind},{mi},{mo},{unit}) with real angle and force_complex=False: {v!r}, expected {v_default!r}", {**cj, "variant": "real"}, {"kind": "helper_dtype"})
 
 
 def search(ctx):
